@@ -21,6 +21,16 @@ def family(name):
     return deco
 
 
+@family('C11_escaped_bracket')
+def _c11_escaped(case, v):
+    """round trip fails and the generated abbreviation contains a backslash-escaped bracket or quote: extract counts raw
+    brackets and knows nothing about escapes"""
+    import re
+    if 'rt' not in case: return False
+    ab = case['s'][case['rt'][0]:case['rt'][1]]
+    return re.search(r'\\[{}\[\]()"\']', ab) is not None
+
+
 def attribute(known, prop, domname, dom, case, v):
     for f in known:
         if f.get('domain') and f['domain'] != domname: continue
